@@ -1,4 +1,4 @@
 SPECIFICATION MSpec
-INVARIANTS C18_NothingBeforeAuth C18_FailureClosesAndFails C18_SuccessIffRightCreds C18_RawVsFramed
+INVARIANTS C18_FailureClosesAndFails C18_NothingBeforeAuth C18_SuccessIffRightCreds C18_RawVsFramed
 POSTCONDITION TraceAccepted
 CHECK_DEADLOCK FALSE
